@@ -147,7 +147,8 @@ def main():
             status["roundtrip"] = dict(stable=fpm.first_difference(live, again) is None,
                                        difference=fpm.first_difference(live, loaded),
                                        sizes=dict(surplus=sum(len(c["surplus"]) for c in live["cells"]),
-                                                  instates=sum(len(t[1]) for t in live["taggers"]), scheduler=len(live["scheduler"])))
+                                                  instates=sum(len(t[1]) for t in live["taggers"]), scheduler=len(live["scheduler"]),
+                                                  potentials=len(live["potentials"])))
         except Exception as e:      # noqa
             status["roundtrip"] = dict(error="%s: %s" % (type(e).__name__, str(e)[:300]))
     rec.close()
